@@ -298,6 +298,8 @@ func reflRecv(name string) (recv any, isStack bool) {
 	panic("unknown receiver " + name)
 }
 
+var otherHandleParent stk.Stack
+
 var reflStackRecvs = []string{"and", "or-sym", "not", "list", "basic", "fifo-mutex", "empty", "policies"}
 var reflCondRecvs = []string{"cond", "cond-stack", "cond-init"}
 
@@ -336,6 +338,20 @@ func runRefl(raw json.RawMessage) (res *Result, err error) {
 			recvAny, isStack = c, false
 		case "cond-init":
 			recvAny, isStack = reflRecv("cond-init")
+		case "other-handle":
+			// the instance was released through ANOTHER handle; this handle keeps
+			// referring to it and must stay usable (Free only zeroes the handle it is called on)
+			s := stk.And().Push(1, stk.Or().Push("x"), stk.Cond("k", stk.Eq, stk.And().Push("y")))
+			s2 := s
+			parent := stk.And().Push(s, "sib")
+			s.Free()
+			recvAny = s2
+			otherHandleParent = parent
+		case "other-handle-cond":
+			c := stk.Cond("k", stk.Eq, "v")
+			c2 := c
+			c.Free()
+			recvAny, isStack = c2, false
 		case "nilaux":
 			var a stk.Auxiliary
 			recvAny = a
@@ -418,8 +434,8 @@ func runRefl(raw json.RawMessage) (res *Result, err error) {
 		case "zero":
 			skip := map[string]bool{"IsZero": true, "IsEmpty": true, "ID": true, "Kind": true, "Addr": true, "Valid": true, "IsEqual": true,
 				"Marshal": true, "Init": true, "String": false}
-			if in.Recv == "cond-init" {
-				break // an initialised (empty) Condition: only panic-freedom is required
+			if in.Recv == "cond-init" || in.Recv == "other-handle" || in.Recv == "other-handle-cond" {
+				break // an initialised instance: only panic-freedom is required
 			}
 			if !skip[c.Method] {
 				for i, o := range out {
@@ -464,7 +480,19 @@ func runRefl(raw json.RawMessage) (res *Result, err error) {
 			}
 		}
 	case "zero":
-		if in.Recv != "cond-init" && in.Recv != "nilaux" {
+		if in.Recv == "other-handle" {
+			func() {
+				defer func() {
+					if r := recover(); r != nil {
+						problems = append(problems, "the parent of an instance freed through another handle panics: "+fmt.Sprint(r))
+					}
+				}()
+				_ = otherHandleParent.String()
+				_, _ = otherHandleParent.Unmarshal()
+				_, _ = otherHandleParent.Traverse(0, 0)
+			}()
+		}
+		if in.Recv != "cond-init" && in.Recv != "nilaux" && in.Recv != "other-handle" && in.Recv != "other-handle-cond" {
 			stillZero := true
 			func() {
 				defer func() {
@@ -661,14 +689,14 @@ func genZeroReflect(ctx *Ctx, emit func(any, string)) {
 	sm := methodNames(&stk.Stack{})
 	cm := methodNames(&stk.Condition{})
 	am := methodNames(&stk.Auxiliary{})
-	for _, rn := range []string{"zstack", "freed"} {
+	for _, rn := range []string{"zstack", "freed", "other-handle"} {
 		for _, m := range sm {
 			for v := 0; v < nVariants(stk.Stack{}, m); v++ {
 				emit(ReflInput{Mode: "zero", Recv: rn, Calls: []RCall{{m, v}}}, "exhaustive")
 			}
 		}
 	}
-	for _, rn := range []string{"zcond", "freedcond", "cond-init"} {
+	for _, rn := range []string{"zcond", "freedcond", "cond-init", "other-handle-cond"} {
 		for _, m := range cm {
 			for v := 0; v < nVariants(stk.Condition{}, m); v++ {
 				emit(ReflInput{Mode: "zero", Recv: rn, Calls: []RCall{{m, v}}}, "exhaustive")
